@@ -140,6 +140,14 @@ def frame_obligations():
                 for t in n.targets:
                     if isinstance(t, ast.Name):
                         module_sets.add(t.id)
+        mutable_module_names = set()
+        for st in tree.body:
+            val = st.value if isinstance(st, (ast.Assign, ast.AnnAssign)) else None
+            if isinstance(val, (ast.Dict, ast.List, ast.Set, ast.DictComp, ast.ListComp, ast.SetComp)) or (
+                    isinstance(val, ast.Call) and isinstance(val.func, ast.Name) and val.func.id in ("dict", "list", "set", "defaultdict", "OrderedDict", "deque", "Counter")):
+                for t in (st.targets if isinstance(st, ast.Assign) else [st.target]):
+                    if isinstance(t, ast.Name):
+                        mutable_module_names.add(t.id)
         class_state = {}
         for c in ast.walk(tree):
             if isinstance(c, ast.ClassDef):
@@ -196,6 +204,25 @@ def frame_obligations():
                     if not ok and key in ALLOWED_SET_SINKS:
                         ok, why = True, "allowed sink: " + ALLOWED_SET_SINKS[key]
                     out.append(Obl("set-order-insensitive", where, n.lineno, ok, f"`{desc}` {why}"))
+            # (g) the same through an alias: `x = MODULE_LEVEL_OBJECT` followed by x.add(...) / x[k] = v / del x[k]
+            aliases = {}
+            for n in ast.walk(fn):
+                if isinstance(n, ast.Assign) and isinstance(n.value, ast.Name) and n.value.id in mod_names and n.value.id not in local - {t.id for t in n.targets if isinstance(t, ast.Name)}:
+                    for t in n.targets:
+                        if isinstance(t, ast.Name) and n.value.id in mutable_module_names:
+                            aliases[t.id] = n.value.id
+            for n in ast.walk(fn):
+                base = None
+                if isinstance(n, (ast.Assign, ast.AugAssign, ast.Delete)):
+                    for t in (n.targets if isinstance(n, (ast.Assign, ast.Delete)) else [n.target]):
+                        if isinstance(t, ast.Subscript):
+                            base = t.value
+                elif isinstance(n, ast.Call) and isinstance(n.func, ast.Attribute) and n.func.attr in _MUTATORS:
+                    base = n.func.value
+                while isinstance(base, ast.Subscript):
+                    base = base.value
+                if isinstance(base, ast.Name) and base.id in aliases:
+                    out.append(Obl("no-global-write", where, n.lineno, False, f"modifies module-level object `{aliases[base.id]}` through its alias `{base.id}`"))
             # (f) mutable objects created in a class body are shared by every instance (and every document converted in the process):
             # writing INTO them through self / cls / the class name carries state from one conversion to the next
             owner = q.split(".")[0] if "." in q else None
@@ -332,6 +359,12 @@ def _lru_cache_obligations(mods):
                 clears = [n for n in ast.walk(fn2) if isinstance(n, ast.Call) and isinstance(n.func, ast.Attribute) and n.func.attr == "cache_clear" and short in ast.unparse(n.func)]
                 ok = bool(clears) and min(c.lineno for c in clears) < min(c.lineno for c in calls)
                 out.append(Obl("memo-cleared-before-use", f"{mname}.{q2}", calls[0].lineno, ok, f"reads the memoised `{short}` " + ("after clearing it in the same call" if ok else "without clearing it first: results of an earlier document may be served")))
+            if "." not in q:
+                # a memo around a module-level function lives as long as the process: whether its key covers everything the result depends
+                # on, and whether callers leave the cached object alone, is not decided here -> undecided, left to the batch-order runs
+                uses = [n for q2, fn2 in _functions(tree) for n in ast.walk(fn2) if isinstance(n, ast.Call) and isinstance(n.func, ast.Name) and n.func.id == short and fn2 is not fn]
+                if uses:
+                    out.append(Obl("memo-cleared-before-use", f"{mname}.{q}", fn.lineno, False, f"process-wide memo around `{short}`: results are shared by every document converted in the process (key completeness / mutation of the cached object not decided statically)", recognised=False))
     return out
 
 
